@@ -129,6 +129,48 @@ Mut(n, s) == MutAt(n, Pick(Mix(s, 11), NodeCount(n)), s).n
 (* the v-th node (cyclically) gets a huge length: sweeps every length field of a file *)
 MutLen(n, v) == MutAt(n, v % NodeCount(n), 0 - (1 + v)).n
 
+(* hostile parameters: every unsigned value of the file preamble (ticks per second, max-block-items, hints,      *)
+(* prefixes, versions, ...) becomes huge at once -- these are the numbers the reading of the blocks trusts --    *)
+(* and then, one at a time, every length field (arrays, maps, strings) of the file is made huge as well: an     *)
+(* allocation bounded by "the smaller of two numbers from the input" is found this way                          *)
+RECURSIVE HugeVals(_, _)
+HugeVals(n, s) ==
+    CASE n.t = MT_UINT -> [n EXCEPT !.a = HugeArgs[1 + Pick(s, 3)], !.w = 8]
+      [] n.t = MT_MAP  -> [n EXCEPT !.kids = [i \in 1..Len(n.kids) |-> IF i % 2 = 1 THEN n.kids[i] ELSE HugeVals(n.kids[i], Mix(s, i))]]
+      [] n.t \in {MT_ARR, MT_TAG} -> [n EXCEPT !.kids = [i \in 1..Len(n.kids) |-> HugeVals(n.kids[i], Mix(s, i))]]
+      [] OTHER -> n
+HostileParams(f, s) == IF f.t = MT_ARR /\ Len(f.kids) >= 2 THEN [f EXCEPT !.kids[2] = HugeVals(@, s)] ELSE f
+
+RECURSIVE LenNodes(_, _)
+(* pre-order indices of the nodes that carry a length (base = index of n); [idx, next] *)
+LenNodes(n, base) ==
+    LET self == IF n.t \in {MT_ARR, MT_MAP, MT_BSTR, MT_TSTR} /\ n.w # -1 THEN <<base>> ELSE <<>> IN
+    IF n.t \in {MT_ARR, MT_MAP, MT_TAG} THEN
+        LET RECURSIVE Go(_, _, _)
+            Go(i, nxt, acc) == IF i > Len(n.kids) THEN [idx |-> acc, next |-> nxt]
+                               ELSE LET r == LenNodes(n.kids[i], nxt) IN Go(i + 1, r.next, acc \o r.idx)
+        IN Go(1, base + 1, self)
+    ELSE [idx |-> self, next |-> base + 1]
+MutLen2(n, v) ==
+    LET h == HostileParams(n, v)
+        idx == LenNodes(h, 0).idx
+    IN IF idx = <<>> THEN h ELSE MutAt(h, idx[1 + (v % Len(idx))], 0 - (1 + v)).n
+
+(* boundary instants: the earliest-time of every block becomes (secs, ticks) = Edges[..], chosen by the caller    *)
+(* so that secs * rate + ticks lies just below 2^63 for a common rate -- adding the (unchanged, small) time        *)
+(* offsets of the records then crosses the largest representable instant                                          *)
+KeyIs(k, i) == k.t = MT_UINT /\ Strip(k.a) = FromInt(i)
+MapAt(m, i, F(_)) ==      \* the value of key i of map m replaced by F(value)
+    IF m.t # MT_MAP THEN m
+    ELSE [m EXCEPT !.kids = [j \in 1..Len(m.kids) |-> IF j % 2 = 0 /\ KeyIs(m.kids[j - 1], i) THEN F(m.kids[j]) ELSE m.kids[j]]]
+MutTime(f, v, Edges) ==
+    IF Edges = <<>> \/ f.t # MT_ARR \/ Len(f.kids) < 3 \/ f.kids[3].t # MT_ARR THEN f
+    ELSE LET e == Edges[1 + (v % Len(Edges))]
+             SetTime(tm) == IF tm.t = MT_ARR /\ Len(tm.kids) = 2 THEN [tm EXCEPT !.kids = <<NUint(e.s), NUint(e.t)>>] ELSE tm
+             InPre(pre) == MapAt(pre, 0, SetTime)
+             InBlock(b) == MapAt(b, 0, InPre)
+         IN [f EXCEPT !.kids[3].kids = [i \in 1..Len(f.kids[3].kids) |-> InBlock(f.kids[3].kids[i])]]
+
 (* malformed domain names / addresses: every byte string of the file (names, RDATA, addresses, payloads) is *)
 (* replaced by a seed-chosen ill-formed one; the file stays a valid C-DNS file, its content is hostile        *)
 BadNames == << <<9, 1, 65, 10, 66, 0, 0, 0, 0, 0, 0, 0, 0, 0, 0, 0, 0, 0, 0, 0>>, <<63>>, <<1>>, <<255, 65>>, <<3, 119, 119, 119>>,
